@@ -163,6 +163,12 @@ impl World for AgentWorld {
         out.count("fault.peer_close_read", h.sent.iter().filter(|s| matches!(s.op, scenario::Op::CloseRead)).count() as u64);
         out.count("fault.peer_close_write", h.sent.iter().filter(|s| matches!(s.op, scenario::Op::CloseWrite)).count() as u64);
         out.count("fault.restart_read_error", rec.restart_read_fault_fired as u64);
+        {
+            let ctls = |f: &dyn Fn(&model::Ctl) -> bool| rec.truth.iter().flatten().filter(|(_, e)| matches!(e, model::TruthEv::Ctl { ctl } if f(ctl))).count() as u64;
+            out.count("fault.agent_task_failed_by_handler", ctls(&|c| matches!(c, model::Ctl::Crash)));
+            out.count("probe.commander_created_after_start", ctls(&|c| matches!(c, model::Ctl::NewCmdr { .. })));
+            out.count("probe.wrapped_handler_sets", ctls(&|c| matches!(c, model::Ctl::SetWrapped { .. })));
+        }
         out.count("fault.remote_reattached_same_id", h.marks.iter().filter(|(_, m)| m.contains(" reattaches as ")).count() as u64);
         out.count("probe.remote_never_reattached", h.marks.iter().filter(|(_, m)| m.contains("never-reattached")).count() as u64);
         out.count("fault.peer_torn_frame", h.sent.iter().filter(|s| matches!(s.op, scenario::Op::TornCmd { .. })).count() as u64);
